@@ -279,7 +279,49 @@ ASSUMPTIONS = [
     "bounding callables given to Accumulator are pure element-wise functions (uninterpreted)",
 ]
 
+
+@contract(P, "Updatable.update_and_updatesome", [(M, "Updatable.update"), (M, "Updatable.updatesome"), (M, "Updatable.clear"), (M, "Updatable.updater"), (M, "Updatable.updater@setter"), (M, "Updatable.updatable")], min_obligations=4)
+def updatable_apply(c):
+    """the two ways a module applies its accumulated updates, on the real Updatable mixin with a recording updater:
+    update() applies everything once and then - unless clear=False - clears everything; updatesome(p1, ..., pk) applies
+    exactly the named parameters in order, each one cleared right after its own application (every one of them, unless
+    clear=False), the unnamed ones neither applied nor cleared; keyword arguments are forwarded"""
+    cv = c.interp.classv(repo.load_module(M).classes["Updatable"])
+    mod = c.interp.instantiate(cv, [], {})
+    log = []
+    up = Obj(None, "updater")
+    names = ["weight", "bias", "delay"]
+    for n_ in names:
+        acc = Obj(None, f"accumulator[{n_}]")
+        acc.fields["clear"] = Model(lambda it, n_=n_, **kw: log.append(("clear", n_, kw)), f"{n_}.clear")
+        up.fields[n_] = acc
+    up.fields["clear"] = Model(lambda it, **kw: log.append(("clear_all", kw)), "updater.clear")
+    up.fields["__call__"] = Model(lambda it, *a, **kw: log.append(("apply", a, kw)), "updater.__call__")
+    c.setattr(mod, "updater", up)
+    clear = c.choice("clear", ["default", True, False])
+    ckw = {} if clear == "default" else {"clear": clear}
+    clears = clear is not False
+    which = c.choice("call", ["update", "updatesome:1", "updatesome:2", "updatesome:3", "updatesome:none"])
+    if which == "update":
+        c.call(c.getattr(mod, "update"), flag=7, **ckw)
+        c.ensure("update_applies_everything_once_then_clears_everything", log == [("apply", (), {"flag": 7})] + ([("clear_all", {"flag": 7})] if clears else []))
+    else:
+        k = which.split(":")[1]
+        sel = {"1": ["bias"], "2": ["delay", "weight"], "3": ["weight", "bias", "delay"], "none": []}[k]
+        c.call(c.getattr(mod, "updatesome"), *sel, flag=7, **ckw)
+        want = []
+        for n_ in sel:
+            want.append(("apply", (n_,), {"flag": 7}))
+            if clears:
+                want.append(("clear", n_, {"flag": 7}))
+        c.ensure("each_named_parameter_applied_then_cleared_in_order", log == want)
+        c.ensure("every_named_parameter_is_cleared", sorted(e[1] for e in log if e[0] == "clear") == (sorted(sel) if clears else []))
+        c.ensure("unnamed_parameters_untouched", all(e[0] != "clear_all" and (e[0] != "clear" or e[1] in sel) for e in log))
+    c.canary("canary_nothing_happens", z3.BoolVal(not log and which != "updatesome:none"))
+
 MUTANTS = [
+    dict(file=M, func="Updatable.updatesome", old="            self.updater(p, **kwargs)\n            if clear:\n                getattr(self.updater, p).clear(**kwargs)", new="            self.updater(p, **kwargs)\n        if clear:\n            getattr(self.updater, p).clear(**kwargs)", contracts=["Updatable.update_and_updatesome"], name="seed C10f: only the last named parameter is cleared"),
+    dict(file=M, func="Updatable.update", old="            if clear:\n                self.updater.clear(**kwargs)", new="            if not clear:\n                self.updater.clear(**kwargs)", contracts=["Updatable.update_and_updatesome"], name="update: clear flag inverted"),
     dict(file=M, func="Accumulator.neg@setter", old="self._neg_cache.cache_clear()", new="self._pos_cache.cache_clear()", contracts=["Accumulator.cache", "Accumulator.update"], name="seed C10: neg setter clears the wrong cache"),
     dict(file=M, func="Accumulator.pos@deleter", old="self._pos_cache.cache_clear()", new="pass", contracts=["Accumulator.cache", "Updater"]),
     dict(file=M, func="Accumulator.update", old="return self.bind[0](param, pos) - self.bind[1](param, neg)", new="return self.bind[0](param, pos) + self.bind[1](param, neg)", contracts=["Accumulator.update"]),
